@@ -150,6 +150,72 @@ func isTimeNow(v ssa.Value) bool {
 	return ok && staticName(c.Common()) == "time.Now"
 }
 
+// isNow: the instant is the clock reading — a time.Now() call, or a parameter
+// of an UNEXPORTED helper that receives time.Now() (possibly through one more
+// such helper) at every one of its call sites: "timestamp computation moved
+// into fileTimeOf(t time.Time), called with time.Now()".
+func (fi *FuncInfo) isNow(v ssa.Value) bool { return fi.isNowDepth(v, 0) }
+
+func (fi *FuncInfo) isNowDepth(v ssa.Value, depth int) bool {
+	v = fi.resolveVal(v)
+	if isTimeNow(v) {
+		return true
+	}
+	p, ok := v.(*ssa.Parameter)
+	if !ok || depth > 2 {
+		return false
+	}
+	fn := fi.Fn
+	if p.Parent() != fn || fn.Parent() != nil || fn.Object() == nil || fn.Object().Exported() {
+		return false
+	}
+	pi := -1
+	for i, q := range fn.Params {
+		if q == p {
+			pi = i
+		}
+	}
+	calls, ok := fi.W.staticCallsOf(fn)
+	if !ok || len(calls) == 0 || pi < 0 {
+		return false
+	}
+	for _, call := range calls {
+		args := call.Common().Args
+		if pi >= len(args) || !fi.W.Info(call.Parent()).isNowDepth(args[pi], depth+1) {
+			return false
+		}
+	}
+	return true
+}
+
+// staticCallsOf: every reference to fn in the module is a static call of it
+// (ok=false when it escapes as a value, is deferred or go'd).
+func (w *World) staticCallsOf(fn *ssa.Function) ([]*ssa.Call, bool) {
+	var calls []*ssa.Call
+	for _, g := range w.Funcs {
+		for _, b := range g.Blocks {
+			for _, in := range b.Instrs {
+				for _, op := range in.Operands(nil) {
+					if op == nil || *op != ssa.Value(fn) {
+						continue
+					}
+					call, ok := in.(*ssa.Call)
+					if !ok || call.Common().IsInvoke() || call.Common().Value != ssa.Value(fn) {
+						return nil, false
+					}
+					for _, a := range call.Common().Args {
+						if a == ssa.Value(fn) {
+							return nil, false
+						}
+					}
+					calls = append(calls, call)
+				}
+			}
+		}
+	}
+	return calls, true
+}
+
 // nowUsed records the contexts in which the clock-range assumption was used
 // (Ctx is declared in prove.go, which this file does not touch).
 var nowUsed = map[*Ctx]bool{}
@@ -157,7 +223,7 @@ var nowUsed = map[*Ctx]bool{}
 func markNow(c *Ctx) { nowUsed[c] = true }
 
 // NowAssumption is printed by rules that rely on seedFacts' clock range.
-const NowAssumption = "time.Now() lies in [1970-01-01, 2262-04-11] (0 <= Unix() <= 9223372035, UnixNano() representable)"
+const NowAssumption = "time.Now() lies in [1970-01-01, 2262-04-11] (0 <= Unix() <= 9223372035, UnixNano() representable); a time.Time parameter of an unexported function that receives time.Now() at every call site is the same clock reading"
 
 var (
 	maxI64     = new(big.Int).SetInt64(1<<63 - 1)
@@ -228,7 +294,11 @@ func (c *Ctx) seedConsts() {
 
 // seedFacts adds facts Lin() does not know: truncated division / remainder by
 // a constant for operands of either sign, and the ranges of time accessors.
-func (c *Ctx) seedFacts(upto ssa.Instruction) {
+func (c *Ctx) seedFacts(upto ssa.Instruction) { c.seedFactsPlan(upto, nil) }
+
+// seedFactsPlan also binds the planned pure helpers (overflow_inline.go): each
+// call when the walk reaches it, the calls off the dominating path afterwards.
+func (c *Ctx) seedFactsPlan(upto ssa.Instruction, pl *helperPlan) {
 	fi := c.FI
 	for _, b := range fi.Fn.Blocks {
 		if upto != nil && !(b == upto.Block() || b.Dominates(upto.Block())) {
@@ -238,68 +308,82 @@ func (c *Ctx) seedFacts(upto ssa.Instruction) {
 			if in == upto {
 				break
 			}
-			switch x := in.(type) {
-			case *ssa.BinOp:
-				if x.Op != token.QUO && x.Op != token.REM {
-					continue
-				}
-				if _, _, ok := isIntType(x.Type()); !ok {
-					continue
-				}
-				k, ok := constIntAny(x.Y)
-				if !ok || k.Sign() == 0 {
-					continue
-				}
-				ak := new(big.Int).Abs(k)
-				km1 := lin.KB(new(big.Int).Sub(ak, big.NewInt(1)))
+			if call, ok := in.(*ssa.Call); ok && pl != nil {
+				c.bindCall(pl, call)
+			}
+			c.seedInstr(in)
+		}
+	}
+	if pl != nil {
+		for _, call := range pl.order {
+			c.bindCall(pl, call)
+		}
+	}
+}
+
+// seedInstr adds the facts of one defining instruction (see seedFacts).
+func (c *Ctx) seedInstr(in ssa.Instruction) {
+	fi := c.FI
+	switch x := in.(type) {
+	case *ssa.BinOp:
+		if x.Op != token.QUO && x.Op != token.REM {
+			return
+		}
+		if _, _, ok := isIntType(x.Type()); !ok {
+			return
+		}
+		k, ok := constIntAny(x.Y)
+		if !ok || k.Sign() == 0 {
+			return
+		}
+		ak := new(big.Int).Abs(k)
+		km1 := lin.KB(new(big.Int).Sub(ak, big.NewInt(1)))
+		o := c.Lin(x)
+		a := c.Lin(x.X)
+		if x.Op == token.REM {
+			// |r| <= |k|-1, sign(r) = sign(a)
+			c.add(lin.LE(o, km1), lin.GE(o, km1.Neg()))
+			if c.Entails(lin.GE0(a)) {
+				c.add(lin.GE0(o), lin.LE(o, a))
+			} else if c.Entails(lin.LE(a, lin.K(0))) {
+				c.add(lin.LE(o, lin.K(0)), lin.GE(o, a))
+			}
+			return
+		}
+		if k.Sign() < 0 {
+			return
+		}
+		// q = trunc(a/k): k·q-(k-1) <= a <= k·q+(k-1)
+		kq := o.Scale(k)
+		c.add(lin.LE(kq.Sub(km1), a), lin.LE(a, kq.Add(km1)))
+		if c.Entails(lin.GE0(a)) {
+			c.add(lin.GE0(o), lin.LE(kq, a))
+		} else if c.Entails(lin.LE(a, lin.K(0))) {
+			c.add(lin.LE(o, lin.K(0)), lin.GE(kq, a))
+		}
+	case *ssa.Call:
+		n := staticName(x.Common())
+		switch n {
+		case "(time.Time).Nanosecond":
+			o := c.Lin(x)
+			c.add(lin.GE0(o), lin.LE(o, lin.K(999_999_999)))
+		case "(time.Time).Unix":
+			if fi.isNow(x.Common().Args[0]) {
 				o := c.Lin(x)
-				a := c.Lin(x.X)
-				if x.Op == token.REM {
-					// |r| <= |k|-1, sign(r) = sign(a)
-					c.add(lin.LE(o, km1), lin.GE(o, km1.Neg()))
-					if c.Entails(lin.GE0(a)) {
-						c.add(lin.GE0(o), lin.LE(o, a))
-					} else if c.Entails(lin.LE(a, lin.K(0))) {
-						c.add(lin.LE(o, lin.K(0)), lin.GE(o, a))
-					}
-					continue
-				}
-				if k.Sign() < 0 {
-					continue
-				}
-				// q = trunc(a/k): k·q-(k-1) <= a <= k·q+(k-1)
-				kq := o.Scale(k)
-				c.add(lin.LE(kq.Sub(km1), a), lin.LE(a, kq.Add(km1)))
-				if c.Entails(lin.GE0(a)) {
-					c.add(lin.GE0(o), lin.LE(kq, a))
-				} else if c.Entails(lin.LE(a, lin.K(0))) {
-					c.add(lin.LE(o, lin.K(0)), lin.GE(kq, a))
-				}
-			case *ssa.Call:
-				n := staticName(x.Common())
-				switch n {
-				case "(time.Time).Nanosecond":
-					o := c.Lin(x)
-					c.add(lin.GE0(o), lin.LE(o, lin.K(999_999_999)))
-				case "(time.Time).Unix":
-					if isTimeNow(fi.resolveVal(x.Common().Args[0])) {
-						o := c.Lin(x)
-						c.add(lin.GE0(o), lin.LE(o, lin.KB(nowMaxSecs)))
-						markNow(c)
-					}
-				case "(time.Time).UnixNano", "(time.Time).UnixMicro", "(time.Time).UnixMilli":
-					if isTimeNow(fi.resolveVal(x.Common().Args[0])) {
-						o := c.Lin(x)
-						c.add(lin.GE0(o), lin.LE(o, lin.KB(maxI64)))
-						markNow(c)
-					}
-				case "(time.Time).Year":
-					if isTimeNow(fi.resolveVal(x.Common().Args[0])) {
-						o := c.Lin(x)
-						c.add(lin.GE(o, lin.K(1970)), lin.LE(o, lin.K(2262)))
-						markNow(c)
-					}
-				}
+				c.add(lin.GE0(o), lin.LE(o, lin.KB(nowMaxSecs)))
+				markNow(c)
+			}
+		case "(time.Time).UnixNano", "(time.Time).UnixMicro", "(time.Time).UnixMilli":
+			if fi.isNow(x.Common().Args[0]) {
+				o := c.Lin(x)
+				c.add(lin.GE0(o), lin.LE(o, lin.KB(maxI64)))
+				markNow(c)
+			}
+		case "(time.Time).Year":
+			if fi.isNow(x.Common().Args[0]) {
+				o := c.Lin(x)
+				c.add(lin.GE(o, lin.K(1970)), lin.LE(o, lin.K(2262)))
+				markNow(c)
 			}
 		}
 	}
@@ -376,6 +460,75 @@ func laneSplit(x *ssa.Convert) bool {
 	return false
 }
 
+// patternReinterpret: a same-width, sign-changing conversion whose operand is
+// a BIT-LANE ASSEMBLY — zero-extended narrower values placed by constant
+// shifts and combined with | or ^ — is the reinterpretation of a 64-bit
+// pattern, not the conversion of a number: int64(uint64(hi)<<32 | uint64(lo))
+// has exactly the bits of int64(hi)<<32 | int64(lo), which the shift rule
+// above already judges as lane placement ("reaching the sign bit is a
+// reinterpretation of the pattern, not a wrap"). Every shift inside the
+// assembly remains an overflow site of its own (no bit may be shifted out),
+// and the converted value is an opaque full-range integer for every later
+// arithmetic site. A bare parameter, load or call result (int64(ticks)) is NOT
+// an assembly and stays a numeric conversion.
+func patternReinterpret(x *ssa.Convert) bool {
+	db, ds, ok1 := isIntType(x.Type())
+	sb, ss, ok2 := isIntType(x.X.Type())
+	if !ok1 || !ok2 || db != sb || ds == ss {
+		return false
+	}
+	top, ok := x.X.(*ssa.BinOp)
+	if !ok {
+		return false
+	}
+	switch top.Op {
+	case token.OR, token.XOR, token.SHL:
+	default:
+		return false
+	}
+	placed := false // at least one lane is placed by a shift
+	var lane func(v ssa.Value, depth int) bool
+	lane = func(v ssa.Value, depth int) bool {
+		if depth > 12 {
+			return false
+		}
+		switch y := v.(type) {
+		case *ssa.Const:
+			return true
+		case *ssa.Convert:
+			// zero extension of a narrower unsigned value: a lane
+			yb, ysg, ok := isIntType(y.X.Type())
+			zb, _, ok2 := isIntType(y.Type())
+			return ok && ok2 && !ysg && yb < zb
+		case *ssa.ChangeType:
+			return lane(y.X, depth+1)
+		case *ssa.BinOp:
+			switch y.Op {
+			case token.OR, token.XOR:
+				return lane(y.X, depth+1) && lane(y.Y, depth+1)
+			case token.SHL:
+				if _, ok := constInt(y.Y); !ok {
+					return false
+				}
+				if lane(y.X, depth+1) {
+					placed = true
+					return true
+				}
+				return false
+			case token.SHR:
+				_, ok := constInt(y.Y)
+				return ok
+			case token.AND:
+				_, okx := constInt(y.X)
+				_, oky := constInt(y.Y)
+				return okx || oky
+			}
+		}
+		return false
+	}
+	return lane(top, 0) && placed
+}
+
 // OverflowOutcome extends Outcome with a witness and the assumptions used.
 type OverflowOutcome struct {
 	Outcome
@@ -394,7 +547,9 @@ func (w *World) ProveOverflow(s OvSite) OverflowOutcome {
 	c.seedConsts()
 	c.addDominating(c.Block)
 	c.successIn(c.Block, s.In)
-	c.seedFacts(s.In)
+	pl := c.planHelpers(w.P.InModule) // pure arithmetic helpers (overflow_inline.go)
+	c.seedFactsPlan(s.In, pl)
+	c.helperTruth(pl)
 	var res OverflowOutcome
 	// Lin() bounds loop-carried 64-bit integers by ±2^62 (an assumption made
 	// for the bounds prover); it is not admissible when the question is
@@ -484,7 +639,23 @@ func (w *World) ProveOverflow(s OvSite) OverflowOutcome {
 			res.Goals = []string{"low lane of " + valName(x.X)}
 			return res
 		}
-		return finish(inRange(c.Lin(x.X), x.Type()), "source value fits the destination type")
+		if patternReinterpret(x) {
+			res.Proved = true
+			res.How = "bit-pattern reinterpretation: the operand is assembled from zero-extended lanes by constant shifts and |, the same-width view keeps every bit (each shift is judged on its own as lane placement)"
+			res.Goals = []string{"64-bit pattern " + valName(x.X) + " viewed as " + x.Type().String()}
+			return res
+		}
+		out := finish(inRange(c.Lin(x.X), x.Type()), "source value fits the destination type")
+		if !out.Proved {
+			// decide the operand where it is produced: joined saturation
+			// branches, a helper's return values, a helper's call sites
+			lo, hi, _ := typeRange(x.Type())
+			if ok, how := w.ProveValueRange(s.In.Parent(), s.In, x.X, lo, hi); ok {
+				out.Proved, out.Failed, out.Witness = true, "", ""
+				out.How = "source value fits the destination type, " + how
+			}
+		}
+		return out
 	case *ssa.Call:
 		n := staticName(x.Common())
 		if scale := timeUnitCalls[n]; scale != 0 {
@@ -519,7 +690,7 @@ func (w *World) ProveOverflow(s OvSite) OverflowOutcome {
 func (c *Ctx) timeWithin(at ssa.Instruction, t ssa.Value, lo, hi *big.Int) (bool, string) {
 	fi := c.FI
 	rt := fi.resolveVal(t)
-	if isTimeNow(rt) {
+	if fi.isNow(rt) {
 		markNow(c)
 		return true, "receiver is time.Now() (clock-range assumption)"
 	}
@@ -744,27 +915,9 @@ func (w *World) reposeAtCallers(fi *FuncInfo, goals []lin.Con) (int, bool) {
 		return 0, false
 	}
 	// go/ssa keeps no referrers for package-level functions: scan the module
-	var calls []*ssa.Call
-	for _, g := range w.Funcs {
-		for _, b := range g.Blocks {
-			for _, in := range b.Instrs {
-				for _, op := range in.Operands(nil) {
-					if op == nil || *op != ssa.Value(fn) {
-						continue
-					}
-					call, ok := in.(*ssa.Call)
-					if !ok || call.Common().IsInvoke() || call.Common().Value != ssa.Value(fn) {
-						return 0, false // escapes as a value, deferred, or go'd
-					}
-					for _, a := range call.Common().Args {
-						if a == ssa.Value(fn) {
-							return 0, false
-						}
-					}
-					calls = append(calls, call)
-				}
-			}
-		}
+	calls, ok := w.staticCallsOf(fn)
+	if !ok {
+		return 0, false // escapes as a value, deferred, or go'd
 	}
 	if len(calls) == 0 {
 		return 0, false
@@ -805,4 +958,166 @@ func (w *World) reposeAtCallers(fi *FuncInfo, goals []lin.Con) (int, bool) {
 		}
 	}
 	return len(calls), true
+}
+
+// ---------------------------------------------------------------------------
+// Range of a value, decided where the value is PRODUCED.
+
+// ProveValueRange: does lo <= v <= hi hold (lo may be nil) whenever `at`, an
+// instruction of fn that uses v, executes? The context before `at` is tried
+// first; when that fails the question is moved to where the value comes from:
+//
+//   - a φ-join: every incoming value at the end of its predecessor;
+//   - an integer conversion that is the identity on [lo, hi]: its operand;
+//   - the result of a static call of an in-module function: every return
+//     value of the callee (transitively) — "the arithmetic and the clamp live
+//     in a helper";
+//   - a parameter of an unexported function: the argument at every call site
+//     — "the store lives in a helper".
+//
+// how describes the argument on success and names the failing source on
+// failure.
+func (w *World) ProveValueRange(fn *ssa.Function, at ssa.Instruction, v ssa.Value, lo, hi *big.Int) (ok bool, how string) {
+	return w.valueRange(fn, at, v, lo, hi, 0)
+}
+
+func rangeName(lo, hi *big.Int) string {
+	name := hi.String()
+	for _, k := range []uint{31, 32, 60, 63, 64} {
+		if new(big.Int).Add(hi, big.NewInt(1)).Cmp(new(big.Int).Lsh(big.NewInt(1), k)) == 0 {
+			name = fmt.Sprintf("2^%d-1", k)
+		}
+	}
+	if lo == nil {
+		return "<= " + name
+	}
+	return "in [" + lo.String() + ", " + name + "]"
+}
+
+func (w *World) valueRange(fn *ssa.Function, at ssa.Instruction, v ssa.Value, lo, hi *big.Int, depth int) (bool, string) {
+	p := w.P
+	fi := w.Info(fn)
+	if reachesLoopPhi(v, 0, map[ssa.Value]bool{}) {
+		// Lin() bounds loop-carried 64-bit integers by assumption: not
+		// admissible when the range itself is the question
+		return false, " (the value depends on a loop-carried 64-bit integer)"
+	}
+	ctx := fi.ctxBefore(at)
+	ctx.seedConsts()
+	f := ctx.Lin(v)
+	if ctx.Prove(lin.LE(f, lin.KB(hi))) && (lo == nil || ctx.Prove(lin.GE(f, lin.KB(lo)))) {
+		return true, "proved " + rangeName(lo, hi)
+	}
+	if depth > 3 {
+		return false, ""
+	}
+	for {
+		if ct, ok := v.(*ssa.ChangeType); ok {
+			v = ct.X
+			continue
+		}
+		break
+	}
+	var call *ssa.Call
+	idx := 0
+	switch x := v.(type) {
+	case *ssa.Call:
+		call = x
+	case *ssa.Extract:
+		if cl, ok := x.Tuple.(*ssa.Call); ok {
+			call, idx = cl, x.Index
+		}
+	case *ssa.Convert:
+		// the conversion is the identity on [lo, hi] when that interval lies
+		// in both types (Lin keeps a conversion opaque unless the fit is
+		// immediate)
+		slo, shi, ok1 := typeRange(x.X.Type())
+		dlo, dhi, ok2 := typeRange(x.Type())
+		if !ok1 || !ok2 {
+			return false, ""
+		}
+		// x in [a, b] with [a, b] inside both types and inside [lo, hi]
+		// gives conv(x) = x in [lo, hi]
+		a, b := new(big.Int).Set(slo), new(big.Int).Set(shi)
+		for _, l := range []*big.Int{dlo, lo} {
+			if l != nil && l.Cmp(a) > 0 {
+				a = l
+			}
+		}
+		for _, h := range []*big.Int{dhi, hi} {
+			if h.Cmp(b) < 0 {
+				b = h
+			}
+		}
+		if a.Cmp(b) > 0 {
+			return false, ""
+		}
+		min, hi := a, b
+		return w.valueRange(fn, at, x.X, min, hi, depth+1)
+	case *ssa.Phi:
+		if isLoopPhi(x) {
+			return false, ""
+		}
+		for i, e := range x.Edges {
+			pred := x.Block().Preds[i]
+			if len(pred.Instrs) == 0 {
+				return false, ""
+			}
+			if ok, _ := w.valueRange(fn, pred.Instrs[len(pred.Instrs)-1], e, lo, hi, depth+1); !ok {
+				return false, fmt.Sprintf(" (value arriving from block %d)", pred.Index)
+			}
+		}
+		return true, fmt.Sprintf("proved %s on each of the %d joined values", rangeName(lo, hi), len(x.Edges))
+	case *ssa.Parameter:
+		if fn.Parent() != nil || fn.Object() == nil || fn.Object().Exported() {
+			return false, " (it is a parameter of an exported function: any caller may pass a value outside the range)"
+		}
+		pi := -1
+		for i, q := range fn.Params {
+			if q == x {
+				pi = i
+			}
+		}
+		calls, ok := w.staticCallsOf(fn)
+		if !ok || len(calls) == 0 || pi < 0 {
+			return false, " (the helper's call sites cannot be enumerated)"
+		}
+		for _, cl := range calls {
+			args := cl.Common().Args
+			if pi >= len(args) {
+				return false, ""
+			}
+			if ok, _ := w.valueRange(cl.Parent(), cl, args[pi], lo, hi, depth+1); !ok {
+				return false, " (argument at the call in " + p.FuncName(cl.Parent()) + ")"
+			}
+		}
+		return true, fmt.Sprintf("proved %s on the argument at each of the %d call sites of %s", rangeName(lo, hi), len(calls), p.FuncName(fn))
+	}
+	if call == nil || call.Common().IsInvoke() {
+		return false, ""
+	}
+	callee := call.Common().StaticCallee()
+	if callee == nil || callee.Blocks == nil || !p.InModule(callee) {
+		return false, ""
+	}
+	nret := 0
+	for _, b := range callee.Blocks {
+		for _, in := range b.Instrs {
+			ret, ok := in.(*ssa.Return)
+			if !ok {
+				continue
+			}
+			if idx >= len(ret.Results) {
+				return false, ""
+			}
+			nret++
+			if ok, _ := w.valueRange(callee, ret, ret.Results[idx], lo, hi, depth+1); !ok {
+				return false, " (return value of " + p.FuncName(callee) + " at " + p.Rel(ret.Pos()) + ")"
+			}
+		}
+	}
+	if nret == 0 {
+		return false, ""
+	}
+	return true, fmt.Sprintf("proved %s on each of the %d return values of %s", rangeName(lo, hi), nret, p.FuncName(callee))
 }
